@@ -1,30 +1,37 @@
 #!/usr/bin/env python3
-"""Skeleton extractor for C07: the early-exit sites of the TCP connection event loop.
+"""Skeleton extractor for C07: the early-exit sites of the connection event loops.
 
-Reads src/transport/tcp/connection.rs (regex level, strings and comments blanked, braces matched)
-and lists, for the four functions that make up the loop
+Reads the connection event loop of every transport (regex level, strings and comments blanked,
+braces matched):
 
-    0 handle_yamux_substream   1 handle_negotiated_substream   2 handle_protocol_command   3 start
+    tcp    src/transport/tcp/connection.rs        split into four functions
+             0 handle_yamux_substream  1 handle_negotiated_substream  2 handle_protocol_command  3 start
+    ws     src/transport/websocket/connection.rs  one function `start`; the first column is the
+    quic   src/transport/quic/connection.rs       `tokio::select!` branch the site lies in
+             0 the connection (yamux / accept_bi)  1 pending_substreams  2 protocol_set (commands)
 
-every site through which control can leave the loop:
+and lists every site through which control can leave the loop:
 
     kind 0   a `?` (try operator)
     kind 1   a `return`
-    kind 2   a tail `Ok(true)` (the handler asks `start` to stop)
+    kind 2   a tail `Ok(true)` (a tcp handler asks `start` to stop)
 
 with, for each site,
 
     callee   the function of interest the site hangs on: for a `?` the last one named in the same
-             statement, for a `return` / `Ok(true)` the last one named before it in the same arm
+             statement, for a `return` / `Ok(true)` the last one named in the innermost match arm up
+             to the end of the statement
              (0 none, 1 report_connection_closed, 2 try_get_permit, 3 report_substream_open,
               4 report_substream_open_failure, 5 handle_yamux_substream,
               6 handle_negotiated_substream, 7 handle_protocol_command)
-    closed   whether a call of `report_connection_closed` precedes the site inside the same arm
-             (the outermost `=> {` block of the function that contains the site)
+    closed   whether a call of `report_connection_closed` dominates the site: it comes textually
+             before it (for a `return`: before the end of the return statement) in a block that
+             encloses the site (same block or an ancestor; a call in a sibling arm does not count)
 
-and writes them to coq/gen/ConnExits.v. coq/C07 proves that the model's exit table equals this list
-(`exits_match`), so a new `?`/`return` in the loop breaks a proof obligation.
-Called from gen_consts.py on every check; can be run by hand (prints the table)."""
+and writes them to coq/gen/ConnExits.v as conn_exits / ws_exits / quic_exits. coq/C07 proves that
+the model's exit tables equal these lists (`exits_match`, `ws_exits_match`, `quic_exits_match`), so
+a new `?`/`return` in any of the loops breaks a proof obligation.
+Called from gen_consts.py on every check; can be run by hand (prints the tables)."""
 import os
 import re
 import sys
@@ -34,6 +41,12 @@ CALLEES = ["report_connection_closed", "try_get_permit", "report_substream_open"
            "report_substream_open_failure", "handle_yamux_substream", "handle_negotiated_substream",
            "handle_protocol_command"]
 PATH = "src/transport/tcp/connection.rs"
+# (coq name, constant name, file, functions, first column = "fn" | "branch")
+LOOPS = [
+    ("conn_exits", "CONN_EXIT_SITES", PATH, FUNCS, "fn"),
+    ("ws_exits", "WS_EXIT_SITES", "src/transport/websocket/connection.rs", ["start"], "branch"),
+    ("quic_exits", "QUIC_EXIT_SITES", "src/transport/quic/connection.rs", ["start"], "branch"),
+]
 HERE = os.path.dirname(os.path.abspath(__file__))
 OUT = os.path.join(HERE, "..", "coq", "gen", "ConnExits.v")
 
@@ -102,23 +115,31 @@ def last_callee(text):
 
 
 def sites_of(body):
-    # arm of every position: start offset of the outermost enclosing `=> {` block (or 0)
-    stack = []      # (offset of `{`, is_arm)
-    arm_at = [0] * len(body)
+    """[(kind, callee, closed, branch)] in source order; branch = ordinal of the outermost `=> {`
+    block of the function that contains the site (-1 if none)."""
+    n = len(body)
+    stack = []            # (offset of `{`, is_arm)
+    stack_at = [None] * n
+    arms = []             # offsets of outermost arms, in order
     last_sep = 0
     for i, ch in enumerate(body):
-        outer = next((o for (o, a) in stack if a), 0)
-        arm_at[i] = outer
         if ch == "{":
             head = body[last_sep:i]
-            stack.append((i, "=>" in head and i > 0))
+            is_arm = "=>" in head and i > 0
+            if is_arm and not any(a for (_, a) in stack):
+                arms.append(i)
+            stack.append((i, is_arm))
             last_sep = i + 1
+            stack_at[i] = tuple(stack)
         elif ch == "}":
+            stack_at[i] = tuple(stack)
             if stack:
                 stack.pop()
             last_sep = i + 1
-        elif ch in ";,":
-            last_sep = i + 1
+        else:
+            stack_at[i] = tuple(stack)
+            if ch in ";,":
+                last_sep = i + 1
     found = []
     for m in re.finditer(r"(?<=[\)\w\]])\?(?!\w)", body):
         found.append((m.start(), 0))
@@ -128,9 +149,26 @@ def sites_of(body):
         if not re.search(r"\breturn\s+$", body[:m.start()]):
             found.append((m.start(), 2))
     found.sort()
+    closed_calls = [m.start() for m in re.finditer(r"\breport_connection_closed\b", body)]
     out = []
     for pos, kind in found:
-        arm = body[arm_at[pos]:pos]
+        st = stack_at[pos]
+        # end of the statement (for a `return`: the value expression belongs to the site)
+        end = pos
+        if kind == 1:
+            depth, j = 0, pos
+            while j < n:
+                c = body[j]
+                if c in "([{":
+                    depth += 1
+                elif c in ")]}":
+                    depth -= 1
+                    if depth < 0:
+                        break
+                elif c == ";" and depth == 0:
+                    break
+                j += 1
+            end = j
         if kind == 0:
             # the statement the `?` belongs to: walk back to a `;`, `{` or `}` at the site's depth
             depth, j = 0, pos - 1
@@ -156,38 +194,46 @@ def sites_of(body):
                 j -= 1
             callee = last_callee(body[j + 1:pos])
         else:
-            callee = last_callee(arm)
-        closed = re.search(r"\breport_connection_closed\b", arm) is not None
-        out.append((kind, callee, closed))
+            inner = [o for (o, a) in st if a]
+            callee = last_callee(body[(inner[-1] if inner else 0):end])
+        closed = any(q < end and stack_at[q] == st[:len(stack_at[q])] for q in closed_calls)
+        outer = [o for (o, a) in st if a]
+        branch = arms.index(outer[0]) if outer else -1
+        out.append((kind, callee, closed, branch))
     return out
 
 
-def extract(repo):
+def extract_loop(repo, path, funcs, first):
     try:
-        src = open(os.path.join(repo, PATH)).read()
+        src = open(os.path.join(repo, path)).read()
     except OSError:
-        return None, [("CONN_EXIT_SITES", PATH, "file not found")]
+        return None, "file not found"
     src = blank(src)
-    table, missing = [], []
-    for f, name in enumerate(FUNCS):
+    table = []
+    for f, name in enumerate(funcs):
         b = body_of(src, name)
         if b is None:
-            missing.append(("CONN_EXIT_SITES", PATH, "fn %s not found" % name))
-            continue
-        for kind, callee, closed in sites_of(b):
-            table.append((f, kind, callee, closed))
-    return table, missing
+            return table, "fn %s not found" % name
+        for kind, callee, closed, branch in sites_of(b):
+            table.append((f if first == "fn" else max(branch, 0) if branch >= 0 else 9, kind, callee, closed))
+    return table, None
+
+
+def extract(repo):
+    """tcp table only (kept for callers of the first version)"""
+    t, why = extract_loop(repo, PATH, FUNCS, "fn")
+    return t, ([("CONN_EXIT_SITES", PATH, why)] if why else [])
 
 
 def generate(repo):
-    table, missing = extract(repo)
-    if table is None:
-        table = []
+    """-> ({constant name: number of sites}, missing)"""
     lines = [
-        "(* GENERATED by tools/gen_conn_exits.py from src/transport/tcp/connection.rs on every check. Do not edit.",
-        "   One entry per early-exit site of the connection event loop, in source order:",
-        "   (function, (kind, (callee, report_connection_closed called before the site in the same arm))).",
-        "   function: 0 handle_yamux_substream 1 handle_negotiated_substream 2 handle_protocol_command 3 start;",
+        "(* GENERATED by tools/gen_conn_exits.py from the connection event loops of the Rust source on every check.",
+        "   Do not edit. One entry per early-exit site, in source order:",
+        "   (first, (kind, (callee, report_connection_closed dominates the site))).",
+        "   first: conn_exits (tcp): the function, 0 handle_yamux_substream 1 handle_negotiated_substream",
+        "          2 handle_protocol_command 3 start; ws_exits / quic_exits: the select! branch of `start`,",
+        "          0 connection 1 pending_substreams 2 protocol commands;",
         "   kind: 0 `?`  1 `return`  2 tail `Ok(true)`;",
         "   callee: 0 none 1 report_connection_closed 2 try_get_permit 3 report_substream_open",
         "           4 report_substream_open_failure 5 handle_yamux_substream 6 handle_negotiated_substream",
@@ -196,23 +242,37 @@ def generate(repo):
         "Import ListNotations.",
         "Open Scope N_scope.",
         "",
-        "Definition conn_exits : list (N * (N * (N * bool))) :=",
-        "  [" + ";\n   ".join("(%d, (%d, (%d, %s)))" % (f, k, c, "true" if d else "false") for f, k, c, d in table) + "].",
-        "",
-        "Definition conn_exits_complete : bool := %s." % ("false" if missing else "true"),
     ]
-    text = "\n".join(lines) + "\n"
+    counts, missing = {}, []
+    for coq, const, path, funcs, first in LOOPS:
+        table, why = extract_loop(repo, path, funcs, first)
+        if why:
+            missing.append((const, path, why))
+        table = table or []
+        if not why:
+            counts[const] = len(table)
+        lines += [
+            "Definition %s : list (N * (N * (N * bool))) :=" % coq,
+            "  [" + ";\n   ".join("(%d, (%d, (%d, %s)))" % (f, k, c, "true" if d else "false") for f, k, c, d in table) + "].",
+            "Definition %s_complete : bool := %s." % (coq, "false" if why else "true"),
+            "",
+        ]
+    text = "\n".join(lines)
     os.makedirs(os.path.dirname(OUT), exist_ok=True)
     old = open(OUT).read() if os.path.exists(OUT) else None
     if old != text:
         open(OUT, "w").write(text)
-    return table, missing
+    return counts, missing
 
 
 if __name__ == "__main__":
-    t, miss = generate(os.environ.get("VERIF_REPO", "/repo"))
-    for row in t:
-        print("%s  kind=%d callee=%s closed_before=%s" % (FUNCS[row[0]], row[1], ([None] + CALLEES)[row[2]], row[3]))
+    repo = os.environ.get("VERIF_REPO", "/repo")
+    counts, miss = generate(repo)
+    for coq, const, path, funcs, first in LOOPS:
+        t, why = extract_loop(repo, path, funcs, first)
+        print("== %s (%s)%s" % (coq, path, " MISSING: " + why if why else ""))
+        for row in t or []:
+            print("  %s=%d  kind=%d callee=%s closed_before=%s" % (first, row[0], row[1], ([None] + CALLEES)[row[2]], row[3]))
     for m in miss:
         print("MISSING", m, file=sys.stderr)
     sys.exit(3 if miss else 0)
